@@ -73,6 +73,12 @@ CLAIMS = {
          "contract: from_str (serialize m) = m for every validated machine whose encoding fits 1 MiB), C11_reject_or_valid (for every string and every behaviour "
          "of zlib, from_str returns an error or a validated machine). The Coq codecs are compared byte for byte with the bincode and base64 crates, and the real "
          "pipeline and v1 parser are run on hostile strings under catch_unwind.", "DESIGN.md section 4, C11"),
+
+ "C20": ("PARTIAL (deallocation by maybenot_stop and UB-freedom of the unsafe blocks are runtime properties outside the model). Theorems C20_on_events "
+         "(with non-null arguments the actions written are exactly map convert_action of what trigger_events returns, in order, their count reported and never above "
+         "num_machines -- via the C04 slot theorem, so the zip with the caller's buffer never truncates or overruns), C20_fields, C20_duration_split, C20_null, "
+         "C20_start (result code: NullPointer iff out is null; Ok iff UTF-8, every line parses and fractions in [0,1]). The extern \"C\" functions are called with "
+         "canary-surrounded buffers and compared with the model and the Rust framework.", "DESIGN.md section 4, C20"),
 }
 
 NOT_YET = "check not built yet (in progress; planned per DESIGN.md section 7)"
